@@ -10,7 +10,7 @@ import verde as vd
 from moment import MomentGridder
 
 ID = "C06"
-TRANSLATED = "chain"       # Gen/Chain.lean (Chain.fit, Chain.predict over abstract steps) is regenerated from /repo and bridged to the model in Props/C06.lean
+TRANSLATED = "vector"      # Gen/Chain.lean (Chain.fit, Chain.predict, BaseGridder.filter) and Gen/VectorComp.lean (Vector.fit, Vector.predict) are regenerated from /repo and bridged to the model in Props/C06.lean
 FILES = ["verde/chain.py", "verde/vector.py", "verde/base/base_classes.py", "verde/blockreduce.py"]
 RULE = ("corpus + seeded step trees of length 1..4 built from Trend(0..2), the order-sensitive MomentGridder, KNeighbors(k, reduction), BlockReduce, "
         "BlockMean, nested Chains and Vectors, on scalar and 2-component data with or without weights; each case fits the composed estimator, predicts at "
